@@ -39,6 +39,7 @@ type Engine struct {
 
 	mu        sync.Mutex
 	concSched []uint64        // schedule for RunConcrete
+	AuxZero   bool            // concrete mode: auxiliary (environment) choices read as 0 instead of aborting
 	FuncsSeen map[string]bool // functions whose SSA body was executed
 	StubsSeen map[string]bool // intrinsics / stubs hit
 }
@@ -315,6 +316,9 @@ func (m *Machine) nondet(name string, w int) *smt.Term {
 		if m.vector != nil {
 			if name == "maporder" {
 				return m.ctx.BV(0, w)
+			}
+			if m.E.AuxZero {
+				return m.ctx.BV(0, w) // model re-execution: environment choices default to 0
 			}
 			m.abort("unsupported", "havoc stub "+name+" reached in concrete mode")
 		}
